@@ -2,6 +2,7 @@ package props
 
 import (
 	"bytes"
+	"context"
 	"fmt"
 	"math/rand"
 	"os"
@@ -276,7 +277,8 @@ func c15Child(cfg Cfg) int {
 	seq := uint64(1)
 	nextEpoch := func() int8 { return 0 }
 	_ = nextEpoch
-	signBatch := func(keys []int) {
+	var cancelled atomic.Int64
+	signBatchCtx := func(keys []int, ctx context.Context) {
 		outstanding.Add(1)
 		defer outstanding.Add(-1)
 		e := atomic.AddUint64(&seq, 1)
@@ -284,6 +286,7 @@ func c15Child(cfg Cfg) int {
 		for i, k := range keys {
 			cs[i] = mkAtt(env.Keys[k], env.Names[k], 0, 1, 0xaa)
 			cs[i].Data.Source.Epoch, cs[i].Data.Target.Epoch = e, e+1
+			cs[i].Ctx = ctx
 		}
 		if len(cs) == 1 {
 			env.SignAtt(ViaService, cs[0])
@@ -291,6 +294,14 @@ func c15Child(cfg Cfg) int {
 			env.SignAtts(ViaService, cs)
 		}
 		completions.Add(1)
+	}
+	signBatch := func(keys []int) { signBatchCtx(keys, nil) }
+	// A request whose client gives up (deadline) while it is queued for or inside the locking phase.
+	signBatchAbandoned := func(keys []int, after time.Duration) {
+		ctx, cancel := context.WithTimeout(context.Background(), after)
+		defer cancel()
+		cancelled.Add(1)
+		signBatchCtx(keys, ctx)
 	}
 
 	// (1) Directed steering.
@@ -350,7 +361,12 @@ func c15Child(cfg Cfg) int {
 					g.mu.Lock()
 					g.roles[goid()] = rb
 					g.mu.Unlock()
-					signBatch(p.b)
+					if (i+j+schedules)%4 == 0 {
+						// B's client gives up while B is queued behind A.
+						signBatchAbandoned(p.b, time.Millisecond)
+					} else {
+						signBatch(p.b)
+					}
 				}()
 				wg.Wait()
 				g.mu.Lock()
@@ -387,7 +403,11 @@ func c15Child(cfg Cfg) int {
 				keys := wr.Perm(6)[:n]
 				switch wr.Intn(5) {
 				case 0, 1, 2:
-					signBatch(keys)
+					if wr.Intn(8) == 0 {
+						signBatchAbandoned(keys, time.Duration(wr.Intn(400))*time.Microsecond)
+					} else {
+						signBatch(keys)
+					}
 				case 3:
 					outstanding.Add(1)
 					e := atomic.AddUint64(&seq, 1)
@@ -417,6 +437,7 @@ func c15Child(cfg Cfg) int {
 	close(stopWD)
 	g.mu.Lock()
 	fmt.Printf("STAT stress_requests %d\n", total)
+	fmt.Printf("STAT requests_abandoned_by_client %d\n", cancelled.Load())
 	fmt.Printf("STAT completions %d\n", completions.Load())
 	fmt.Printf("STAT locker_events %d\n", g.events.Load())
 	fmt.Printf("STAT max_wait_graph_size %d\n", g.maxSize)
